@@ -337,6 +337,8 @@ def to_array(itp, v, dtype=None):
         def elem(idx):
             x = v.elem(idx[0])
             if isinstance(x, SArr):
+                if all(isinstance(e, int) and e == 1 for e in x.shape):
+                    return x.get((0,) * x.ndim)  # size-1 arrays stored in a list: their single element
                 raise Unsupported("array from sequence of arrays of symbolic length")
             return term_of(x)
         return SArr.fresh((v.length,), elem, dtype or "real")
